@@ -9,4 +9,23 @@
 #define SUB_TOPICS_ARE(ctx, n, t0, t1, t2)                                 \
 	((n) <= 3 && (ctx)->topics.ll_offset == 0 &&                           \
 	    VP_LIST3_IS(&(ctx)->topics.ll_head, (n), &(t0)->node, &(t1)->node, &(t2)->node))
+
+/* a message as a transport delivers it: unshared, empty header, wire bytes in the body */
+#define SUB_WIRE_MSG(m)                                                    \
+	(__CPROVER_is_fresh((m), sizeof(struct nng_msg)) &&                    \
+	    (m)->m_header_len == 0 && (m)->m_refcnt.v == 1 &&                  \
+	    CH_FULL_PRE(&(m)->m_body))
+/* a message sitting in a receive queue (owned by the queue; may be shared) */
+#define SUB_QUEUED_MSG(m)                                                  \
+	(__CPROVER_is_fresh((m), sizeof(struct nng_msg)) &&                    \
+	    (m)->m_header_len <= MSG_HDRCAP && (m)->m_refcnt.v >= 1 &&         \
+	    (m)->m_refcnt.v < 1000 && CH_FULL_PRE(&(m)->m_body))
+/* per-context state: a well-formed queue of depth >= 1 (NNG_OPT_RECVBUF is
+ * 1..8192), its oldest message a real message; STABLE STATE: receivers wait
+ * only while the queue is empty */
+#define SUB_CTX_PRE(c, Q)                                                  \
+	(LMQ_INNER_PRE(&(c)->lmq) && (c)->lmq.lmq_cap >= 1 &&                  \
+	    ((Q).n == 0 || (c)->lmq.lmq_len == 0) &&                           \
+	    ((c)->lmq.lmq_len == 0 || SUB_QUEUED_MSG(LMQ_VIEW(&(c)->lmq, 0))))
+#define SUB_FULL_OLD(c) (OLD((c)->lmq.lmq_len) >= (c)->lmq.lmq_cap)
 #endif
